@@ -20,23 +20,25 @@
  * minisat, z3: > 100 s; cvc5: unknown as soon as the canary is in the run).
  * Units that define VERIF_MB_GHOSTCOPY use these models instead.
  *
- * OVER-APPROXIMATION: the destination range becomes ARBITRARY, except that the
- * destination byte whose offset inside its object is vg_k (resp. vg_k2) receives the
- * byte the real function would store there.  The real functions copy every byte, so
+ * OVER-APPROXIMATION: the whole destination OBJECT becomes ARBITRARY (more than the
+ * n bytes: havocking the object is much cheaper for the solvers than havocking a slice of
+ * symbolic length), except that its bytes at offsets vg_k and vg_k2 hold what the real
+ * function leaves there (the copied byte inside the range, the old byte outside it).  The real functions copy every byte, so
  * they are one of the behaviours of the model for every value of the ghosts.
  * Memory safety is checked exactly: source readable, destination writable for n bytes
  * (n == 0 with any pointer is accepted, as glibc does and C2y defines). */
 #ifdef VERIF_MB_GHOSTCOPY
 static void vg_ghost_copy(unsigned char *d, const unsigned char *s, size_t n)
 {
-    size_t doff = __CPROVER_POINTER_OFFSET(d);
-    _Bool h1 = doff <= vg_k && vg_k - doff < n;
-    _Bool h2 = doff <= vg_k2 && vg_k2 - doff < n;
-    unsigned char b1 = h1 ? s[vg_k - doff] : 0;
-    unsigned char b2 = h2 ? s[vg_k2 - doff] : 0;
-    __CPROVER_havoc_slice(d, n);
-    if (h1) d[vg_k - doff] = b1;
-    if (h2) d[vg_k2 - doff] = b2;
+    size_t doff = __CPROVER_POINTER_OFFSET(d), osz = __CPROVER_OBJECT_SIZE(d);
+    unsigned char *base = d - doff;
+    /* the two ghost offsets of the destination OBJECT: new value if inside the copied range, else kept */
+    _Bool v1 = vg_k < osz, v2 = vg_k2 < osz;
+    unsigned char b1 = !v1 ? 0 : (doff <= vg_k && vg_k - doff < n) ? s[vg_k - doff] : base[vg_k];
+    unsigned char b2 = !v2 ? 0 : (doff <= vg_k2 && vg_k2 - doff < n) ? s[vg_k2 - doff] : base[vg_k2];
+    __CPROVER_havoc_object(d);
+    if (v1) base[vg_k] = b1;
+    if (v2) base[vg_k2] = b2;
 }
 void *memcpy(void *dst, const void *src, size_t n)
 {
